@@ -371,6 +371,42 @@ func (st *State) intrinsic(g *G, fr *Frame, name string, fn *ssa.Function, args 
 		return r, false
 	case "ValidUTF8":
 		return st.intrinsicValidUTF8(st.strArg(args[0])), false
+	case "Param":
+		// harness parameter supplied on the command line (-param name=value); recorded as a draw for the native twin
+		name := constStr(args[0])
+		v, ok := st.eng.Cfg.Params[name]
+		if !ok {
+			v = int(signed(64, args[1].(*Term).U))
+		}
+		st.draws = append(st.draws, Draw{Name: name, Kind: "param", Value: fmt.Sprint(v)})
+		return BV(64, uint64(int64(v))), false
+	case "DumpAccesses":
+		// records every logged access as a fact "acc|tag|loc|name|w|locks|pos|fn" (aggregated over paths)
+		tag := constStr(args[0])
+		for _, a := range st.accessLog {
+			id := 0
+			if a.Loc != nil {
+				if a.Loc.Fresh {
+					continue // objects created by the operation itself are private until published under a lock
+				}
+				id = a.Loc.ID
+			} else if a.Map != nil {
+				id = -a.Map.ID
+			}
+			w := 0
+			if a.Write {
+				w = 1
+			}
+			locks := ""
+			for i, l := range a.Locks {
+				if i > 0 {
+					locks += ","
+				}
+				locks += fmt.Sprint(l)
+			}
+			st.eng.Res.Facts[fmt.Sprintf("acc|%s|%d|%s|%d|%s|%s|%s", tag, id, a.Name, w, locks, a.Pos, shortName(a.Fn))]++
+		}
+		return nil, false
 	case "StartAccessLog":
 		st.logAccess = true
 		return nil, false
